@@ -19,6 +19,7 @@ PLANS = {
             ("A", "ecdsa", 32, 500)],
     "C18": [("A", "rsa", 110, 2200), ("A", "ec", 48, 700),
             ("A", "ecdsa", 40, 600), ("A", "ec_big", 3, 40)],
+    "C13": [("C", "driver", 6000, 200000), ("C", "e2e", 120, 2500)],
     "C10": [("B", "tiny", 1500, 40000), ("B", "named", 500, 12000),
             ("A", "ec", 40, 700), ("A", "ec_big", 4, 60)],
 }
